@@ -93,18 +93,14 @@ def panic_sites():
                     frag = mm.group(0)
                     if kind == "index" and re.match(r"^(vec|phf_map|json|format|println|write|matches)$", frag.split("[")[0]): continue
                     norm = re.sub(r"\s+", "", s)
-                    sites.append(dict(file=rel, fn=fn, kind=kind, text=norm[:160]))
-    # de-duplicate
-    seen = set(); out = []
-    for s in sites:
-        key = (s["file"], s["fn"], s["kind"], s["text"])
-        if key not in seen:
-            seen.add(key); out.append(s)
-    return out
+                    sites.append(dict(file=rel, fn=fn, kind=kind, frag=re.sub(r"\s+", "", frag), text=norm[:160]))
+    return sites
 
 
 def key_of(s):
-    return "%s|%s|%s|%s" % (s["file"], s["fn"], s["kind"], s["text"])
+    """a site is identified by file, kind of construct and the construct itself (whitespace-free) - not by the line it stands on,
+    so that re-flowing or reordering code does not look like a new construct; occurrences are counted (multiset)"""
+    return "%s|%s|%s" % (s["file"], s["kind"], s.get("frag", s["text"]))
 
 
 def global_state():
@@ -131,14 +127,18 @@ def fingerprint(paths):
 def run(pid):
     problems = []; summary = {}
     if pid in ("C01", "C18", "C19"):
-        allowed = {}
+        import collections
+        allowed = collections.Counter()
         if os.path.exists(LIST):
-            allowed = {key_of(s): s for s in json.load(open(LIST))["sites"]}
+            allowed = collections.Counter(key_of(s) for s in json.load(open(LIST))["sites"])
         cur = panic_sites()
-        new = [s for s in cur if key_of(s) not in allowed]
+        seen = collections.Counter(); new = []
+        for s in cur:
+            seen[key_of(s)] += 1
+            if seen[key_of(s)] > allowed[key_of(s)]: new.append(s)
         if pid == "C18": new = [s for s in new if s["file"].endswith("bin.rs")]
         if pid == "C19": new = [s for s in new if s["file"].endswith("lib.rs")]
-        summary["panic_sites"] = dict(listed=len(allowed), found=len(cur), unlisted=len(new))
+        summary["panic_sites"] = dict(listed=sum(allowed.values()), found=len(cur), unlisted=len(new))
         for s in new[:10]:
             problems.append("panic-site audit: unlisted panic-capable construct in %s fn %s (%s): %s" % (s["file"], s["fn"], s["kind"], s["text"]))
     if pid == "C17":
@@ -157,9 +157,10 @@ if __name__ == "__main__":
         sites = panic_sites()
         old = {}
         if os.path.exists(LIST):
-            old = {key_of(s): s for s in json.load(open(LIST))["sites"]}
+            for s0 in json.load(open(LIST))["sites"]:
+                old.setdefault((s0["file"], s0["kind"], s0["text"]), s0)
         for s in sites:
-            s["why_safe"] = old.get(key_of(s), {}).get("why_safe", "TODO")
+            s["why_safe"] = old.get((s["file"], s["kind"], s["text"]), {}).get("why_safe", "TODO")
         json.dump(dict(sites=sites), open(LIST, "w"), indent=1)
         print("wrote %d sites" % len(sites))
     else:
